@@ -18,7 +18,7 @@ r = stage_glr.get(tier, 0)
 files = {"C01-D1": [], "C02-D1": [], "C03-D2": [], "C17-D1": [], "C17-D2": []}
 bad = []
 for c in r["cases"]:
-    if c["origin"] != "det":
+    if c["origin"] != "det" or c.get("variant") == "prefix-ld1":   # (prefix-ld1: finding D26 is matched by its configuration fact, C17-KF3)
         continue
     diag = set(c["diag"])
     for cl in c["clauses"]:
